@@ -242,3 +242,25 @@ CHECKS["C17"] = dict(
     bounds="integer literals of 1..3 (4) digits, every digit value (leading zeros included); float literals ii.ff, ii.ffe[+-]x, iie[+-]x compared with strtod (thorough); a op1 b op2 c for all 25 operator pairs over 5 atom kinds (symbol, number 0..12, implicit product 3x, function call) with whitespace variations; unary minus against ** and *; ^ as power; 25 one-argument function names, atan2, max, constants",
     outside=["strings longer than three operands", "relational/logical syntax (C18 exercises it for safety only)"],
 )
+
+CHECKS["C16"] = dict(
+    src="C16.cpp", level="model_checking",
+    entries=[
+        dict(name="harness_c16_roundtrip", quick={"depth": 1, "symB": 12}, thorough={"depth": 2, "symB": 30, "_wall": 1700}),
+        dict(name="harness_c16_numbers", quick={"B": 12}, thorough={"B": 120}),
+    ],
+    anchors=["SymEngine::StrPrinter", "SymEngine::Parser::parse", "SymEngine::Basic::__str__"],
+    bounds="operator trees of depth <= 1 (2) over {x, y, 2, -1/2, -3, 7/3, 0, 1, a symbolic integer |c|<=12 (30), pi} with neg, powers 2,-1,-3, sin, cos, exp, log, sqrt, atan, + - * /: parse(str(e)) == e and equal values built in another order print identically; rational n/d (|n|<=12 (120), d<=4), Gaussian rational coefficients, rational powers, nested powers, a relational and a conjunction",
+    outside=["floating point numbers (15 significant digits)", "unusual symbol names", "expressions of more than 3 operators"],
+)
+
+CHECKS["C44"] = dict(
+    src="C44.cpp", level="model_checking",
+    entries=[
+        dict(name="harness_c44_printers", quick={"depth": 1}, thorough={"depth": 2, "_wall": 1700}),
+        dict(name="harness_c44_sbml", quick={"depth": 1}, thorough={"depth": 2, "_wall": 1700}),
+    ],
+    anchors=["SymEngine::LatexPrinter", "SymEngine::MathMLPrinter", "SymEngine::UnicodePrinter", "SymEngine::JuliaStrPrinter", "SymEngine::SbmlPrinter", "SymEngine::parse_sbml"],
+    bounds="operator trees of depth <= 1 (2) over {x, y, numbers, a symbolic integer, pi} and 11 unary functions: latex, mathml, unicode and julia printers return; LaTeX braces and \\left/\\right balanced; MathML tag stack well-formed; Julia parentheses balanced; parse_sbml(sbml(e)) == e on the SBML fragment",
+    outside=["sets, matrices, piecewise and relational printing", "unicode box geometry"],
+)
